@@ -13,7 +13,8 @@ UNITS = {
     'checked_mul': {'sources': ('core', 'fpdec'), 'modes': ('F', 'D'), 'module': 'mul', 'builder': 'build_checked'},
     'from_float': {'sources': ('core', 'fpdec'), 'modes': ('F', 'D')},
     'format': {'sources': ('core', 'fpdec'), 'modes': ('F', 'D')},
-    'format_roundtrip': {'sources': ('core', 'fpdec'), 'modes': ('F',), 'module': 'format', 'builder': 'build_roundtrip'},
+    'format_roundtrip': {'sources': ('core', 'fpdec'), 'modes': ('F',), 'module': 'format', 'builder': 'build_roundtrip',
+                         'fallback_keys': ['serde', 'format::', 'from_str::']},
     'ratio': {'sources': ('core', 'fpdec'), 'modes': ('F', 'D')},
     'magnitude': {'sources': ('core',), 'modes': ('F', 'D')},
     'unops': {'sources': ('core', 'fpdec'), 'modes': ('F', 'D')},
@@ -56,6 +57,7 @@ PROPS = {
     },
     'C07': {
         'units': ['core_kernel', 'format', 'format_roundtrip', 'parser'],
+        'thorough_extra': ['witness:serde'],
         'title': 'Display/ToString is canonical and round-trips through the parser',
         'design_ref': 'DESIGN.md section 7 (C07)',
         'assumptions': [
